@@ -2,8 +2,8 @@ CONSTANTS
   MaxTS = 60
   MaxVal = 2
   Keys = {1}
-  Native = TRUE
-  MirrorDropsEmpty = FALSE
+  Native = FALSE
+  MirrorDropsEmpty = TRUE
   AppVals = {1, 2}
   MaxApp = 2
   MaxRemote = 1
@@ -11,9 +11,9 @@ CONSTANTS
   RetryCount = 2
   MaxCrash = 1
   AllowWindow = FALSE
-  StartStates = {"empty", "data+ownsnap"}
+  StartStates = {"empty", "data"}
   OtherAtStart = {FALSE}
-  ReceiveOnly = FALSE
+  ReceiveOnly = TRUE
   MaxForce = 0
   OnlyOnce = FALSE
 SPECIFICATION Spec
